@@ -123,10 +123,12 @@ def select(live, sel):
     """Resolve a selector against the live leaf list (every generated history is valid by construction)."""
     kind, i = sel
     leaves = live.leaves()
-    if kind in ('last0', 'last1'):
+    if kind in ('last0', 'last1', 'last2', 'last3'):
         # the children created by the most recent bisection are appended to the leaf collection:
-        # last0 = second (upper / right) child, last1 = first (lower / left) child
-        return leaves[-1] if kind == 'last0' or len(leaves) < 2 else leaves[-2]
+        # last0 = second (upper / right) child, last1 = first (lower / left) child; after a combined bisection
+        # (four quarters appended) last2 / last3 reach the two quarters of the first time half
+        k = int(kind[4])
+        return leaves[-1 - k] if len(leaves) > k else leaves[-1]
     if kind != 'any':
         L, T = live.model.L, live.model.T
         def pred(e):
